@@ -5,8 +5,10 @@ package naga
 import (
 	"fmt"
 
+	"github.com/gogpu/naga/internal/zzspv"
 	"github.com/gogpu/naga/internal/zztpl"
 	zz "github.com/gogpu/naga/internal/zzverif"
+	"github.com/gogpu/naga/spirv"
 )
 
 // C07 in the text back ends: for a family of host-shareable struct trees (vec3 padding,
@@ -22,6 +24,11 @@ import (
 // the attributes at all (open finding, known_findings.json), so its harnesses run the
 // attribute-free shapes and one representative pair (@align(16)); the remaining pairs would
 // only repeat that finding.
+const (
+	zzAddrMsg = " text addresses a buffer member at an offset other than the WGSL layout"
+	zzReadMsg = " text reads a uniform buffer member at an offset other than the WGSL layout"
+)
+
 var zzAllAttrs = len(zztpl.LayoutAttrs)
 
 const zzGLSLAttrs = 2
@@ -60,7 +67,7 @@ func zzLayoutCompare(backend string, leaves []zztpl.LLeaf, in, out []uint32) {
 		return
 	}
 	for _, l := range leaves {
-		zz.Assert(out[l.Off/4] == want[l.Off/4], backend+" text addresses a buffer member at an offset other than the WGSL layout")
+		zz.Assert(out[l.Off/4] == want[l.Off/4], backend+zzAddrMsg)
 	}
 	zz.Reach("end")
 }
@@ -158,7 +165,7 @@ func zzUniformRun(backend string, nattr int, run func(string, []uint32, [3]uint3
 		return
 	}
 	for i, l := range leaves {
-		zz.Assert(out[i] == uni[l.Off/4]^zztpl.LayoutKey(i), backend+" text reads a uniform buffer member at an offset other than the WGSL layout")
+		zz.Assert(out[i] == uni[l.Off/4]^zztpl.LayoutKey(i), backend+zzReadMsg)
 	}
 	zz.Reach("end")
 }
@@ -166,3 +173,62 @@ func zzUniformRun(backend string, nattr int, run func(string, []uint32, [3]uint3
 func ZZ_C07_uniform_layout_hlsl() { zzUniformRun("HLSL", zzAllAttrs, zzCompileAndRunHLSL) }
 func ZZ_C07_uniform_layout_msl()  { zzUniformRun("MSL", zzAllAttrs, zzCompileAndRunMSL) }
 func ZZ_C07_uniform_layout_glsl() { zzUniformRun("GLSL", zzGLSLAttrs, zzCompileAndRunGLSL) }
+
+// SPIR-V: the same programs through GenerateSPIRV; the reference executor maps each buffer
+// variable onto its byte image by the Offset / ArrayStride / MatrixStride decorations found in
+// the emitted binary (a missing one is a violation), so a wrong or lost decoration moves a leaf.
+
+func zzRunSPIRVImages(src string, storage, uniform []uint32) ([]uint32, bool) {
+	ast, err := Parse(src)
+	zz.Assert(err == nil, "template does not parse: "+src)
+	if err != nil {
+		return nil, false
+	}
+	mod, err := LowerWithSource(ast, src)
+	zz.Assert(err == nil, "template does not lower: "+src)
+	if err != nil {
+		return nil, false
+	}
+	verrs, err := Validate(mod)
+	zz.Assert(err == nil && len(verrs) == 0, "template rejected by the validator: "+src)
+	o := spirv.DefaultOptions()
+	if zz.Choice("options", 2) == 1 {
+		o.Version = spirv.Version1_5
+	}
+	out, err := GenerateSPIRV(mod, o)
+	zz.Assert(err == nil, "SPIR-V backend rejected the template: "+src)
+	if err != nil {
+		return nil, false
+	}
+	ex, ok := zzspv.NewExec(out)
+	zz.Assert(ok, "emitted SPIR-V is not a well-formed instruction stream")
+	if !ok {
+		return nil, false
+	}
+	ex.ByteImages = true
+	init := map[[2]uint32][]uint32{{0, 0}: storage}
+	if uniform != nil {
+		init[[2]uint32{0, 1}] = uniform
+	}
+	res := ex.RunEntry(init)
+	buf, ok := res[[2]uint32{0, 0}]
+	zz.Assert(ok, "storage buffer (group 0, binding 0) not found in the emitted module")
+	if !ok {
+		return nil, false
+	}
+	return ex.Image([2]uint32{0, 0}, buf, storage), true
+}
+
+func ZZ_C07_buffer_layout_spirv() {
+	src, leaves, words := zzLayoutCase(false, zzAllAttrs)
+	in := zzLayoutInputs(words)
+	if out, ok := zzRunSPIRVImages(src, in, nil); ok {
+		zzLayoutCompare("SPIR-V", leaves, in, out)
+	}
+}
+
+func ZZ_C07_uniform_layout_spirv() {
+	zzUniformRun("SPIR-V", zzAllAttrs, func(src string, in []uint32, _ [3]uint32, _ []uint32) ([]uint32, bool) {
+		return zzRunSPIRVImages(src, in, zzUniformImage)
+	})
+}
